@@ -386,79 +386,96 @@ Module Bin.
       | _ => k
       end.
 
-    (** from_binary_impl; [fuel] = MAX_DEPTH + 1 - depth, so fuel 0 is `depth > MAX_BINARY_DEPTH` *)
-    Fixpoint from_binary (fuel : nat) (bs : list Z) : option (bval * list Z) :=
-      match fuel with
-      | O => None
-      | S fuel' =>
+    (** from_binary_impl, in three parsers.  [rec] is the recursive call at depth + 1. *)
+    Section Parsers.
+      Variable rec : list Z -> option (bval * list Z).
+
+      (** flags, label, map keys (encode.rs:726-769) *)
+      Definition parse_meta (has_m : bool) (bs1 : list Z) : option (Z * list Z * option bval * list Z) :=
+        if has_m then
+          match bs1 with
+          | [] => None
+          | fl :: bs2 =>
+            if 15 <? fl then None else
+            obind (take 4 bs2) (fun '(lb, bs3) =>
+            obind (takeZ (horner 256 lb) bs3) (fun '(lbl, bs4) =>
+            if match Utf8.un_utf8 lbl with Some _ => false | None => true end then None else
+            match bs4 with
+            | [] => None
+            | hk :: bs5 =>
+              if hk =? 0 then Some (fl, lbl, None, bs5)
+              else obind (rec bs5) (fun '(k, bs6) => Some (fl, lbl, Some (norm_keys k), bs6))
+            end))
+          end
+        else Some (0, [], None, bs1).
+
+      (** rank byte and u32 dimensions (encode.rs:771-787) *)
+      Definition parse_shape (bs : list Z) : option (list Z * list Z) :=
+        match bs with
+        | [] => None
+        | rk :: bsr => read_shape (Z.to_nat rk) bsr
+        end.
+
+      Fixpoint read_boxes (n : nat) (bs : list Z) : option (list bval * list Z) :=
+        match n with
+        | O => Some ([], bs)
+        | S n' => obind (rec bs) (fun '(x, r1) =>
+                  obind (read_boxes n' r1) (fun '(xs, r2) => Some (x :: xs, r2)))
+        end.
+
+      (** the data (encode.rs:789-870).  [count] = validate_size = product of the shape (0 as soon as a
+          dimension is 0); since 5718f7d every branch refuses a count the remaining input cannot hold
+          before allocating (`available < elem_count`, `bytes.len() < elem_count` for boxes) *)
+      Definition parse_payload (code : Z) (h : hdr) (count : Z) (bsd : list Z) : option (bval * list Z) :=
+        if code <=? 9 then
+          match ty_of_code code with
+          | None => None
+          | Some t =>
+            obind (read_elems (width_of t) count bsd) (fun '(els, rest) =>
+            let d := map (read_num t) els in
+            Some (match t with U8 => BLeaf h None (LByte d) | _ => BLeaf h None (LNum d) end, rest))
+          end
+        else if code =? 16 then
+          obind (take 4 bsd) (fun '(cb, bs7) =>
+          obind (takeZ (horner 256 cb) bs7) (fun '(sb, rest) =>
+          match Utf8.un_utf8 sb with
+          | None => None
+          | Some cps => if Z.of_nat (length cps) =? count then Some (BLeaf h None (LChar cps), rest) else None
+          end))
+        else if code =? 48 then
+          obind (read_elems 16 count bsd) (fun '(els, rest) =>
+          Some (BLeaf h None (LCplx (map (fun e => (horner 256 (firstn 8 e), horner 256 (skipn 8 e))) els)), rest))
+        else
+          if Z.of_nat (length bsd) <? count then None else
+          obind (read_boxes (Z.to_nat count) bsd) (fun '(xs, rest) => Some (BBox h None xs, rest)).
+
+      Definition finish (v : bval) (h : hdr) (keys : option bval) (rest : list Z) : option (bval * list Z) :=
+        match keys with
+        | None => Some (set_keys v h None, rest)
+        | Some k =>
+          (* `val.map(keys)`: the keys must have as many rows as the value *)
+          if row_count k =? row_count v then Some (set_keys v h (Some k), rest) else None
+        end.
+
+      Definition parse_value (bs : list Z) : option (bval * list Z) :=
         match bs with
         | [] => None
         | tyb :: bs1 =>
           let has_m := 128 <=? tyb in
           let code := tyb mod 128 in
           if negb (orb (orb (code <=? 9) (code =? 16)) (orb (code =? 32) (code =? 48))) then None else
-          (* metadata *)
-          obind (if has_m then
-                   match bs1 with
-                   | [] => None
-                   | fl :: bs2 =>
-                     if 15 <? fl then None else
-                     obind (take 4 bs2) (fun '(lb, bs3) =>
-                     obind (takeZ (horner 256 lb) bs3) (fun '(lbl, bs4) =>
-                     if match Utf8.un_utf8 lbl with Some _ => false | None => true end then None else
-                     match bs4 with
-                     | [] => None
-                     | hk :: bs5 =>
-                       if hk =? 0 then Some (fl, lbl, None, bs5)
-                       else obind (from_binary fuel' bs5) (fun '(k, bs6) => Some (fl, lbl, Some (norm_keys k), bs6))
-                     end))
-                   end
-                 else Some (0, [], None, bs1))
-          (fun '(fl, lbl, keys, bsm) =>
-          match bsm with
-          | [] => None
-          | rk :: bsr =>
-            obind (read_shape (Z.to_nat rk) bsr) (fun '(sh, bsd) =>
-            let h := {| alloc := has_m; flags := fl; label := lbl; shape := sh |} in
-            let count := zprod sh in
-            obind
-              (if code <=? 9 then
-                 match ty_of_code code with
-                 | None => None
-                 | Some t =>
-                   obind (read_elems (width_of t) count bsd) (fun '(els, rest) =>
-                   let d := map (read_num t) els in
-                   Some (match t with U8 => BLeaf h None (LByte d) | _ => BLeaf h None (LNum d) end, rest))
-                 end
-               else if code =? 16 then
-                 obind (take 4 bsd) (fun '(cb, bs7) =>
-                 obind (takeZ (horner 256 cb) bs7) (fun '(sb, rest) =>
-                 match Utf8.un_utf8 sb with
-                 | None => None
-                 | Some cps => if Z.of_nat (length cps) =? count then Some (BLeaf h None (LChar cps), rest) else None
-                 end))
-               else if code =? 48 then
-                 obind (read_elems 16 count bsd) (fun '(els, rest) =>
-                 Some (BLeaf h None (LCplx (map (fun e => (horner 256 (firstn 8 e), horner 256 (skipn 8 e))) els)), rest))
-               else
-                 (* boxes: every element needs at least one byte *)
-                 if Z.of_nat (length bsd) <? count then None else
-                 obind ((fix go (n : nat) (bs : list Z) : option (list bval * list Z) :=
-                           match n with
-                           | O => Some ([], bs)
-                           | S n' => obind (from_binary fuel' bs) (fun '(x, r1) =>
-                                     obind (go n' r1) (fun '(xs, r2) => Some (x :: xs, r2)))
-                           end) (Z.to_nat count) bsd)
-                       (fun '(xs, rest) => Some (BBox h None xs, rest)))
-              (fun '(v, rest) =>
-                 match keys with
-                 | None => Some (set_keys v h None, rest)
-                 | Some k =>
-                   (* `val.map(keys)`: the keys must have as many rows as the value *)
-                   if row_count k =? row_count v then Some (set_keys v h (Some k), rest) else None
-                 end))
-          end)
-        end
+          obind (parse_meta has_m bs1) (fun '(fl, lbl, keys, bsm) =>
+          obind (parse_shape bsm) (fun '(sh, bsd) =>
+          let h := {| alloc := has_m; flags := fl; label := lbl; shape := sh |} in
+          obind (parse_payload code h (zprod sh) bsd) (fun '(v, rest) => finish v h keys rest)))
+        end.
+    End Parsers.
+
+    (** [fuel] = MAX_DEPTH + 1 - depth, so fuel 0 is `depth > MAX_BINARY_DEPTH` *)
+    Fixpoint from_binary (fuel : nat) (bs : list Z) : option (bval * list Z) :=
+      match fuel with
+      | O => None
+      | S fuel' => parse_value (from_binary fuel') bs
       end.
 
     Definition to_binary_top (v : bval) : option (list Z) := to_binary 0 v.
